@@ -341,6 +341,115 @@ type KeyGenCase struct {
 	} `json:"job"`
 	Accept bool     `json:"accept"`
 	Calls  []string `json:"calls"`
+	// kind "pool" (specs/misc/KeyPool.tla): actions on a pool of BLS key objects and the formal scalar (coefficients of a, b) of each object
+	Hist []struct {
+		Op string `json:"op"`
+		I  int    `json:"i"`
+		S  []int  `json:"s"`
+	} `json:"hist"`
+	Vals [][]int64 `json:"vals"`
+}
+
+// runKeyPool executes one behaviour of KeyPool.tla on real key objects, then asks EVERY object for its public key:
+// it must encode to (reference) scalar * generator, whatever was cached, decoded or aggregated on the way.
+func runKeyPool(c KeyGenCase, rng *rand.Rand, res *Result, add func(pred, d string)) {
+	sd := make([]byte, 32+rng.Intn(100))
+	rng.Read(sd)
+	ka, err := crypto.GeneratePrivateKey(crypto.BLSBLS12381, sd)
+	if err != nil {
+		add("Generate", err.Error())
+		return
+	}
+	a := new(big.Int).SetBytes(ka.Encode())
+	b := new(big.Int)
+	for b.Sign() == 0 {
+		x := make([]byte, 40)
+		rng.Read(x)
+		b.Mod(new(big.Int).SetBytes(x), ref.R)
+	}
+	if rng.Intn(3) == 0 { // a + b wraps around r by a small amount
+		b.Sub(ref.R, a)
+		b.Add(b, big.NewInt(int64(1+rng.Intn(1000))))
+		b.Mod(b, ref.R)
+	}
+	decode := func(d *big.Int) crypto.PrivateKey {
+		bb := make([]byte, 32)
+		d.FillBytes(bb)
+		k, err := crypto.DecodePrivateKey(crypto.BLSBLS12381, bb)
+		if err != nil {
+			panic(fmt.Sprintf("DecodePrivateKey(%x): %v", bb, err))
+		}
+		return k
+	}
+	pool := []crypto.PrivateKey{ka, decode(b)}
+	firstPK := map[int]crypto.PublicKey{}
+	for _, h := range c.Hist {
+		switch h.Op {
+		case "PK":
+			pk := pool[h.I-1].PublicKey()
+			if f, ok := firstPK[h.I-1]; ok && (!f.Equals(pk) || !pk.Equals(f)) {
+				add("CachedConsistently", "repeated PublicKey() calls are not Equal")
+			}
+			firstPK[h.I-1] = pk
+		case "Redecode":
+			pool = append(pool, decode(new(big.Int).SetBytes(pool[h.I-1].Encode())))
+		case "Agg":
+			var in []crypto.PrivateKey
+			for _, i := range h.S {
+				in = append(in, pool[i-1])
+			}
+			if rng.Intn(2) == 0 { // list order is immaterial
+				for i, j := 0, len(in)-1; i < j; i, j = i+1, j-1 {
+					in[i], in[j] = in[j], in[i]
+				}
+			}
+			k, err := crypto.AggregateBLSPrivateKeys(in)
+			if err != nil {
+				add("Aggregate", err.Error())
+				return
+			}
+			pool = append(pool, k)
+		}
+	}
+	if len(pool) != len(c.Vals) {
+		panic("harness: pool size differs from the model")
+	}
+	for i, k := range pool {
+		d := new(big.Int).Mul(a, big.NewInt(c.Vals[i][0]))
+		d.Add(d, new(big.Int).Mul(b, big.NewInt(c.Vals[i][1])))
+		d.Mod(d, ref.R)
+		if d.Sign() == 0 {
+			continue // the zero key (only by a 2^-255 coincidence): not in the documented domain
+		}
+		want := refPublicKey("BLS", nil, d)
+		res.Evals++
+		pk := k.PublicKey()
+		if !bytes.Equal(pk.Encode(), want) {
+			add("PublicKeyIsScalarTimesGenerator", fmt.Sprintf("object %d of the pool (scalar %d*a + %d*b = %x) after %s: PublicKey() encodes to %x, scalar*G is %x",
+				i+1, c.Vals[i][0], c.Vals[i][1], d.Bytes(), histString(c), pk.Encode(), want))
+			return
+		}
+		if f, ok := firstPK[i]; ok && (!f.Equals(pk) || !pk.Equals(f)) {
+			add("CachedConsistently", fmt.Sprintf("object %d: PublicKey() at the end is not Equal to the one returned earlier (%s)", i+1, histString(c)))
+		}
+		sb := make([]byte, 32)
+		d.FillBytes(sb)
+		if !bytes.Equal(k.Encode(), sb) {
+			add("PublicKeyIsScalarTimesGenerator", fmt.Sprintf("object %d: private scalar encodes to %x, expected %x (%s)", i+1, k.Encode(), sb, histString(c)))
+		}
+	}
+}
+
+func histString(c KeyGenCase) string {
+	s := ""
+	for _, h := range c.Hist {
+		if h.Op == "Agg" {
+			s += fmt.Sprintf("Agg%v ", h.S)
+		} else {
+			s += fmt.Sprintf("%s(%d) ", h.Op, h.I)
+		}
+	}
+	return s
 }
 
 func algoOf(name string) (crypto.SigningAlgorithm, *ref.Curve, *big.Int) {
@@ -389,6 +498,10 @@ func RunKeyGen(raw json.RawMessage, seed int64) (res Result) {
 	algo, cur, order := algoOf(c.Job.Algo)
 	add := func(pred, d string) {
 		res.Violations = append(res.Violations, Violation{"C12", pred, fmt.Sprintf("%s [case %s seed %d]", d, string(raw), seed)})
+	}
+	if c.Job.Kind == "pool" {
+		runKeyPool(c, rng, &res, add)
+		return
 	}
 	if c.Job.Kind == "seed" {
 		for rep := 0; rep < 2; rep++ {
